@@ -155,7 +155,7 @@ impl<T: Qcow2IoOps> Qcow2Dev<T> {
         // (or reused) cluster. Respect the meta update order the same way as
         // copy-on-write does: refcounts of everything mapped by this slice,
         // then the slice itself, and only then drop the reference in ram.
-        self.flush_refcount().await?;
+        self.prepare_slice_direct_write(&l2_table).await?;
         self.flush_table(&*l2_table, 0, l2_table.byte_size())
             .await?;
         l2_handle.set_dirty(false);
